@@ -265,3 +265,16 @@ reg("C18",
             "thorough": {"identities_verified": 40000, "twin_pairs_tried": 2000, "release_probes_verified": 800, "distinct_nontrivial": 8}},
     rule="one evaluation = one history of 28 (thorough 60) steps, one twin pair, one release experiment or one malformed-material sweep; distinct = distinct (family, transport, twin kind)",
     assumptions=["an in-place rewrite differs from the previous content in mtime (the harness waits for a new clock tick)"])
+
+reg("C14",
+    title="the control interface is passive and safe",
+    technique="differential monitor: replies obtained through a raw SOCK_SEQPACKET control client and through libxcmctl are compared with xcm_attr_get / xcm_attr_get_all taken in-process in the same quiescent instant; malformed-request generator; every reply byte scanned for the body of tls.key; owner's data path re-checked; directory listing after close; ASan+UBSan in the owner",
+    level_text="Owners are the server, client and accepted sockets of every transport with the control interface on, in four flavours (plain, by-value chain credentials of several kB, peer certificates with 1/12/40/80 subject alternative names, credential paths beyond 100 characters). Sessions: raw sessions starting with get_all or with get (both orders), named gets over present, absent, sensitive, oversized and syntactically odd names; libxcmctl sessions in a helper thread (xcmc_attr_get and xcmc_attr_get_all in both orders); eight kinds of malformed request (short, one byte short, too long, unknown type, a response as request, unterminated 64-byte name, no NUL in the whole message, random bytes); storms of 3-5 simultaneous sessions (limit is 2) half of which leave before the reply. Every reply is compared with the in-process value (type, length, bytes, or the same errno), get_all replies must be typed get_all_attr_cfm, hold no entry longer than its field, no tls.key, and omit nothing that fits unless full; a message is sent over the owner's connection after every fourth round; the control directory must be empty after close.",
+    level_note="For utls the control sockets belong to sub-sockets that the public API cannot address: only the generic rules (reply type, key scan, survival, data path, files) apply there.",
+    harness=STATES + ["c14.c"],
+    stages=[dict(variant="asan", cases={"quick": 640, "thorough": 16000}, timeout={"quick": 900, "thorough": 3400})],
+    floors={"quick": {"owners": 500, "wellformed_requests": 5000, "get_replies_verified": 800, "get_rejections_verified": 400, "get_all_replies_verified": 500, "libxcmctl_sessions": 500, "libxcmctl_get_all_ok": 300,
+                      "malformed_requests": 1200, "session_storms": 500, "data_path_checks": 1000, "control_dirs_empty_after_close": 500, "distinct_nontrivial": 20},
+            "thorough": {"owners": 14000, "wellformed_requests": 300000, "malformed_requests": 80000, "distinct_nontrivial": 20}},
+    rule="one evaluation = one owner (three sockets of one transport and flavour) on which 14 (thorough 40) rounds of control sessions are run; distinct = distinct (transport, flavour, SAN count)",
+    assumptions=["volatile attributes (tcp.rtt, tcp.segs_*, counters) are compared by type and length only"])
